@@ -422,7 +422,14 @@ struct CppWorld : World {
             // undocumented length is not judged; only that the call is harmless and the object can be re-keyed
             bool rr = C.obj->set_key(key.data(), 7);
             if (c.record) c.run->probe(rr ? "keying.set_key_len7_accepted" : "keying.set_key_len7_rejected");
-            // what the object holds now is undocumented: re-key validly before further use
+            if (!rr && C.key_known && (op.u(2) & 1)) {
+                // aead.h: "Returns true if the key was set, or false if key or len are invalid" - after `false` the key
+                // was not set, so the object goes on under the key it had (judged by the packets that follow)
+                if (c.record) c.run->probe("keying.rejected_set_key_keeps_old_key");
+                r = true;
+                break;
+            }
+            // accepted (what key a 7-byte key means is the subclass's business): re-key validly before further use
             r = C.obj->set_key(key.data(), key.size());
             C.key = key;
             break; }
